@@ -123,9 +123,31 @@ def inflight_cases(tier, seed):
                "holds": holds, "opts": {"idle_s": 0.4, "hang_s": 3.0}}
 
 
+def resumed_cases(tier, seed):
+    """The early completion happens in a LATER invocation: the branch contexts are already STARTED in the history, so they send
+    no START (nothing registers them under their parent) before the parent completes."""
+    rng = random.Random(seed + 7)
+    combos = [(k, d, n) for k in ("par", "map") for d in (1, 2) for n in NEXT_OPS]
+    rng.shuffle(combos)
+    for j, (kind, depth, nextop) in enumerate(combos[: 14 if tier == "quick" else len(combos)]):
+        surv = [{"k": "wait", "s": 1}, {"k": "gate", "name": "surv"}, dict(NEXT_OPS[nextop]), {"k": "step", "val": "tail"}]
+        for _ in range(depth - 1):
+            surv = [{"k": "child", "body": surv}]
+        brs = [{"body": [{"k": "wait", "s": 1}, {"k": "step", "val": "fast"}]}, {"body": surv}]
+        cfg = {"min_ok": 1}
+        node = {"k": "par", "branches": brs, "cfg": cfg} if kind == "par" else {"k": "map", "items": [0, 1], "per_item": brs, "body": [], "cfg": cfg}
+        done_cond = {"applied": {"Name": "0", "Type": "CONTEXT", "Action": "SUCCEED"}}
+        holds = [{"match": {"kind": "gate", "name": "surv"}, "until": done_cond},
+                 {"match": {"kind": "gate", "name": "main-hold"}, "until": {"event": {"kind": "fn_exit", "fnkind": "branch", "path": "0/b1"}}}]
+        yield {"label": "resumed|%s|d%d|%s" % (kind, depth, nextop), "prog": {"body": [node, {"k": "gate", "name": "main-hold"}, {"k": "step", "val": "end"}]},
+               "prog_seed": 19900 + j, "pattern": {"p": "plain"}, "holds": holds, "opts": {"idle_s": 0.5, "hang_s": 3.0}, "max_inv": 12,
+               "world": {"complete": {}, "timers": "all"}}
+
+
 def explicit_all(tier, seed):
     yield from explicit(tier, seed)
     yield from inflight_cases(tier, seed)
+    yield from resumed_cases(tier, seed)
 
 
 SPEC = Spec(
